@@ -157,6 +157,9 @@ func TestSim(t *testing.T) {
 			}
 		}
 	}()
+	if a.Prop == "C18" || strings.Contains(a.File, "C18-") {
+		initShippedDebugger()
+	}
 	code := 0
 	switch a.Mode {
 	case "batch":
